@@ -317,6 +317,150 @@ func c07Recheck(w *rec.Writer) error {
 	return nil
 }
 
+// ---------------------------------------------------------------- pipelined data while the supervisor is mid-step
+// c07Gated parks the supervisor goroutine between its state load and its store while it digests an OLDER event
+// (the TCP-up echo, or the echo of a Deselect), lets the receive goroutine commit the peer's Select.req (CAS to
+// Selected) in that window, releases the supervisor so that its store lands right after the commit, and only then
+// lets the receive goroutine go on to the data frame the peer pipelined behind the Select.req.
+type c07Gated struct {
+	T         string `json:"t"` // "c07p"
+	Variant   string `json:"variant"` // which older event the supervisor is digesting
+	Parked    bool   `json:"supervisor_parked"`
+	Committed bool   `json:"commit_in_window"`
+	SelectRsp int    `json:"select_rsp_status"`
+	DataSent  int    `json:"data_sent"`
+	Delivered int    `json:"delivered"`
+	Rejects   int    `json:"rejects"`
+	State     string `json:"state_after"`
+	Panic     string `json:"panic"`
+	Fault     string `json:"fault"`
+}
+
+func c07GatedScenario(variant string) *c07Gated {
+	line := &c07Gated{T: "c07p", Variant: variant, SelectRsp: -1}
+	cut, err := lab.NewCUT(lab.Options{Passive: true, Sid: 0x0102, T3: 300 * time.Millisecond, T6: 2 * time.Second, T7: 30 * time.Second})
+	if err != nil {
+		line.Fault = err.Error()
+		return line
+	}
+	var mu sync.Mutex
+	armed := false
+	parked := make(chan struct{})
+	release := make(chan struct{})
+	var parkOnce, relOnce sync.Once
+	commits := 0
+	// the first commit after arming produces the older event the supervisor is parked on (CommitConnected -> TCP-up echo,
+	// CommitSelectLost -> Deselect echo); the second one is the CommitSelected that must land inside the window
+	wantCommit := 2
+	hsms.VerifSetGate(func(name string) {
+		mu.Lock()
+		on := armed
+		mu.Unlock()
+		if !on {
+			return
+		}
+		switch name {
+		case "sup.step.loaded":
+			first := false
+			parkOnce.Do(func() { first = true })
+			if first {
+				close(parked)
+				select {
+				case <-release:
+				case <-time.After(2 * time.Second):
+				}
+			}
+		case "sup.commit.cas":
+			mu.Lock()
+			commits++
+			n := commits
+			mu.Unlock()
+			if n == wantCommit {
+				select {
+				case <-parked: // the supervisor is between load and store: let its store land now, before we go on
+					line.Committed = true
+					relOnce.Do(func() { close(release) })
+					time.Sleep(5 * time.Millisecond)
+				case <-time.After(300 * time.Millisecond):
+				}
+			}
+		}
+	})
+	defer hsms.VerifSetGate(nil)
+	defer relOnce.Do(func() { close(release) })
+	if err := cut.Open(); err != nil {
+		line.Fault = err.Error()
+		return line
+	}
+	defer cut.Conn.Close()
+	if variant == "tcpup" {
+		mu.Lock()
+		armed = true // the first supervisor step after the connection comes up digests the TCP-up echo
+		mu.Unlock()
+	}
+	p, err := cut.ConnectPeer(nil, 3*time.Second)
+	if err != nil {
+		line.Fault = err.Error()
+		return line
+	}
+	defer p.Close()
+	data := func(k int) peerkit.Frame {
+		return peerkit.Data(0x0102, 1, 1, false, uint32(0x61000000+k), asciiBody("pipelined"))
+	}
+	switch variant {
+	case "tcpup":
+		select {
+		case <-parked:
+			line.Parked = true
+		case <-time.After(time.Second):
+			line.Fault = "the supervisor never reached the gate"
+			return line
+		}
+		// Select.req and two data frames in ONE write
+		p.Send(peerkit.Ctl(peerkit.STSelectReq, 0x0102, 0x60000001), data(1), data(2))
+		line.DataSent = 2
+	case "selectlost":
+		p.Send(peerkit.Ctl(peerkit.STSelectReq, 0x0102, 0x60000001))
+		if _, ok := p.Barrier(2 * time.Second); !ok || !cut.WaitState("S", time.Second) {
+			line.Fault = "could not reach Selected"
+			return line
+		}
+		time.Sleep(5 * time.Millisecond)
+		cut.TakeDeliveries()
+		p.Drain()
+		mu.Lock()
+		armed = true // the next supervisor step digests the echo of the Deselect
+		mu.Unlock()
+		p.Send(peerkit.Ctl(peerkit.STDeselectReq, 0x0102, 0x60000002))
+		select {
+		case <-parked:
+			line.Parked = true
+		case <-time.After(time.Second):
+			line.Fault = "the supervisor never reached the gate"
+			return line
+		}
+		p.Send(peerkit.Ctl(peerkit.STSelectReq, 0x0102, 0x60000003), data(1), data(2))
+		line.DataSent = 2
+	}
+	got, _ := p.Barrier(3 * time.Second)
+	for _, f := range got {
+		switch f.ST {
+		case peerkit.STSelectRsp:
+			line.SelectRsp = int(f.B3)
+		case peerkit.STRejectReq:
+			line.Rejects++
+		}
+	}
+	time.Sleep(5 * time.Millisecond)
+	for _, d := range cut.TakeDeliveries() {
+		if d.Sb[0] == 0x61 {
+			line.Delivered++
+		}
+	}
+	line.State = cut.State()
+	return line
+}
+
 func runC07(args []string) int {
 	fs := flag.NewFlagSet("c07", flag.ExitOnError)
 	out := fs.String("out", "", "observation file")
@@ -335,6 +479,20 @@ func runC07(args []string) int {
 	if err := c07Recheck(w); err != nil {
 		fmt.Fprintln(os.Stderr, "c07 recheck:", err)
 		return 2
+	}
+	for rep := 0; rep < 3; rep++ {
+		for _, v := range []string{"tcpup", "selectlost"} {
+			var line *c07Gated
+			func() {
+				defer func() {
+					if r := recover(); r != nil {
+						line = &c07Gated{T: "c07p", Variant: v, Panic: fmt.Sprint(r)}
+					}
+				}()
+				line = c07GatedScenario(v)
+			}()
+			w.Emit(line)
+		}
 	}
 	if err := w.Close(); err != nil {
 		fmt.Fprintln(os.Stderr, err)
